@@ -1,16 +1,16 @@
 (* Props/C01.v — text-consuming APIs are total: no panic or hang on any input.
 
    The functions that compute offsets (netutil/reversed.go, the label validators
-   of addr.go, stringutil.ContainsFold, timeutil.Duration.String) are modelled
+   of addr.go, the IP validators of ip.go, stringutil.ContainsFold, timeutil.Duration.String) are modelled
    with Go's bounds-checked indexing and slicing and explicit loop bounds in the
    monad M (Ret / Panic / OutOfFuel): the theorems below say that they always
-   return.  The other models (IsValidIPString, Record.UnmarshalText, the codecs,
+   return.  The other models (Record.UnmarshalText, the codecs,
    the conversions) are total list functions; their agreement with the code,
    including "no recovered panic, no watchdog timeout", is what the C01 stream of
    the correspondence checks for EVERY exported function of the five packages. *)
 From Verif Require Import Base.GoPrim Base.Strings Gen.Consts Gen.BytePreds Std.Netip Std.Net Std.Utf8 Std.Time
   Model.Addr Model.Ip Model.Reversed Model.StringUtil Model.Codecs
-  Proofs.AddrProofs Proofs.ReversedTotal Proofs.StringUtilProofs Proofs.DurationProofs.
+  Proofs.AddrProofs Proofs.ReversedTotal Proofs.StringUtilProofs Proofs.DurationProofs Model.IpL1 Proofs.IpL1Proofs.
 
 (* ---- the ARPA decoders, for EVERY input and EVERY answer of idna.ToASCII ---- *)
 Theorem C01_ip_from_reversed : forall input a, exists r, ip_from_reversed_addr input a = Ret r.
@@ -39,6 +39,11 @@ Proof.
   - destruct (validate_name_spec _ _ decides_srv a) as (r & H & _). exists r. exact H.
 Qed.
 
+(* ---- the IP validators, with the Go indices (Model/IpL1.v): no s[i] / s[a:b] is ever out of range ---- *)
+Theorem C01_ip_validators : forall s,
+  (exists b, is_valid_ip_string_l1 s = Ret b) /\ (exists b, is_valid_ip_port_string_l1 s = Ret b).
+Proof. exact ip_validators_total. Qed.
+
 (* ---- stringutil ---- *)
 Theorem C01_contains_fold : forall fold s sub,
   orbit_closes fold (fst (decode sub)) -> exists b, contains_fold fold s sub = Ret b.
@@ -64,6 +69,7 @@ Print Assumptions C01_prefix_from_reversed.
 Print Assumptions C01_extract.
 Print Assumptions C01_extract_ascii.
 Print Assumptions C01_validators.
+Print Assumptions C01_ip_validators.
 Print Assumptions C01_contains_fold.
 Print Assumptions C01_split_trimmed.
 Print Assumptions C01_duration_string.
